@@ -38,6 +38,16 @@ fn long_text() -> BoxedStrategy<String> {
         .boxed()
 }
 
+/// values as the real file has them - numbers - in every spelling a reader might be tempted to normalise: leading zeros, signs,
+/// blanks around them, fractions, exponents, hex, booleans in any letter case
+fn number_like() -> BoxedStrategy<String> {
+    prop_oneof![
+        2 => prop::sample::select(vec!["0", "1", "00", "007", "-0", "+1", "-1", "1.0", "1.50", ".5", "1e3", " 1", "1 ", "0x1F", "0X1f", "true", "TRUE", "False", "1,5", "4294967296", "-2147483648", "18446744073709551616", "NaN", "inf"]).prop_map(|s| s.to_string()),
+        1 => (prop::sample::select(vec!["", "-", "+", "0", "00", " "]), 0u64..100_000, prop::sample::select(vec!["", ".0", ".00", " ", "f"])).prop_map(|(a, n, b)| format!("{}{}{}", a, n, b)),
+    ]
+    .boxed()
+}
+
 fn key() -> BoxedStrategy<String> {
     prop_oneof![
         90 => prop::sample::select(vec!["Language", "Region", "UPnP", "Port", "ScreenLeft", "K", ""]).prop_map(|s| s.to_string()),
@@ -55,7 +65,7 @@ pub struct CfgCase {
 }
 
 fn cfg_strategy(_: &Ctx) -> BoxedStrategy<CfgCase> {
-    (vec((prop_oneof![20 => Just("Version".to_string()), 80 => text(20, false), 1 => long_text()], prop_oneof![1 => Just(vec![]), 4 => vec((key(), prop_oneof![40 => text(16, false), 1 => long_text()]), 0..=8)]), 0..=8), vec((key(), prop_oneof![30 => text(10, false), 1 => long_text()]), 0..=8), vec(prop_oneof![1 => key(), 1 => text(20, false)], 0..4))
+    (vec((prop_oneof![20 => Just("Version".to_string()), 80 => text(20, false), 1 => long_text()], prop_oneof![1 => Just(vec![]), 4 => vec((key(), prop_oneof![30 => text(16, false), 10 => number_like(), 1 => long_text()]), 0..=8)]), 0..=8), vec((key(), prop_oneof![22 => text(10, false), 8 => number_like(), 1 => long_text()]), 0..=8), vec(prop_oneof![1 => key(), 1 => text(20, false)], 0..4))
         .prop_map(|(mut categories, edits, probes)| {
             // distinct category names
             let mut seen = std::collections::HashSet::new();
